@@ -423,8 +423,8 @@ pub proof fn lemma_chain8_m(s: Seq<u8>, ty: BoxType, end: int, c1: int, c2: int,
 // ---- stbl
 pub open spec fn stbl_norm(b: StblBox) -> StblBox { StblBox { stsd: stsd_norm(b.stsd), ..b } }
 pub open spec fn stbl_muxed(b: StblBox) -> bool { stbl_wire(b) && (stsd_muxed_avc(b.stsd) || stsd_muxed_aac(b.stsd)) }
-/// position of the k-th piece of the reference bytes written at p
 pub open spec fn stbl_c(b: StblBox, p: int, k: int) -> int { p + stbl_pre(b, k - 1).len() }
+#[verifier::rlimit(200)]
 pub proof fn lemma_stbl_child_1(d: Seq<u8>, p: int, b: StblBox)
     requires 0 <= p, stbl_muxed(b), true
     ensures ({ let s = wr(d, p, stbl_bytes(b)); let c = stbl_c(b, p, 1); let x = b.stsd;
@@ -438,6 +438,7 @@ pub proof fn lemma_stbl_child_1(d: Seq<u8>, p: int, b: StblBox)
     lemma_child_placed(d, p, all, stbl_pre(b, 0), stsd_bytes(x), stsd_len(x), 0x73747364);
     lemma_stsd_roundtrip(s, c, x);
 }
+#[verifier::rlimit(200)]
 pub proof fn lemma_stbl_child_2(d: Seq<u8>, p: int, b: StblBox)
     requires 0 <= p, stbl_muxed(b), true
     ensures ({ let s = wr(d, p, stbl_bytes(b)); let c = stbl_c(b, p, 2); let x = b.stts;
@@ -451,6 +452,7 @@ pub proof fn lemma_stbl_child_2(d: Seq<u8>, p: int, b: StblBox)
     lemma_child_placed(d, p, all, stbl_pre(b, 1), stts_bytes(x), stts_len(x), 0x73747473);
     lemma_stts_roundtrip(s, c, x);
 }
+#[verifier::rlimit(200)]
 pub proof fn lemma_stbl_child_3(d: Seq<u8>, p: int, b: StblBox)
     requires 0 <= p, stbl_muxed(b), b.ctts is Some
     ensures ({ let s = wr(d, p, stbl_bytes(b)); let c = stbl_c(b, p, 3); let x = b.ctts->Some_0;
@@ -464,6 +466,7 @@ pub proof fn lemma_stbl_child_3(d: Seq<u8>, p: int, b: StblBox)
     lemma_child_placed(d, p, all, stbl_pre(b, 2), ctts_bytes(x), ctts_len(x), 0x63747473);
     lemma_ctts_roundtrip(s, c, x);
 }
+#[verifier::rlimit(200)]
 pub proof fn lemma_stbl_child_4(d: Seq<u8>, p: int, b: StblBox)
     requires 0 <= p, stbl_muxed(b), b.stss is Some
     ensures ({ let s = wr(d, p, stbl_bytes(b)); let c = stbl_c(b, p, 4); let x = b.stss->Some_0;
@@ -477,6 +480,7 @@ pub proof fn lemma_stbl_child_4(d: Seq<u8>, p: int, b: StblBox)
     lemma_child_placed(d, p, all, stbl_pre(b, 3), stss_bytes(x), stss_len(x), 0x73747373);
     lemma_stss_roundtrip(s, c, x);
 }
+#[verifier::rlimit(200)]
 pub proof fn lemma_stbl_child_5(d: Seq<u8>, p: int, b: StblBox)
     requires 0 <= p, stbl_muxed(b), true
     ensures ({ let s = wr(d, p, stbl_bytes(b)); let c = stbl_c(b, p, 5); let x = b.stsc;
@@ -490,6 +494,7 @@ pub proof fn lemma_stbl_child_5(d: Seq<u8>, p: int, b: StblBox)
     lemma_child_placed(d, p, all, stbl_pre(b, 4), stsc_bytes(x), stsc_len(x), 0x73747363);
     lemma_stsc_roundtrip(s, c, x);
 }
+#[verifier::rlimit(200)]
 pub proof fn lemma_stbl_child_6(d: Seq<u8>, p: int, b: StblBox)
     requires 0 <= p, stbl_muxed(b), true
     ensures ({ let s = wr(d, p, stbl_bytes(b)); let c = stbl_c(b, p, 6); let x = b.stsz;
@@ -503,6 +508,7 @@ pub proof fn lemma_stbl_child_6(d: Seq<u8>, p: int, b: StblBox)
     lemma_child_placed(d, p, all, stbl_pre(b, 5), stsz_bytes(x), stsz_len(x), 0x7374737a);
     lemma_stsz_roundtrip(s, c, x);
 }
+#[verifier::rlimit(200)]
 pub proof fn lemma_stbl_child_7(d: Seq<u8>, p: int, b: StblBox)
     requires 0 <= p, stbl_muxed(b), b.stco is Some
     ensures ({ let s = wr(d, p, stbl_bytes(b)); let c = stbl_c(b, p, 7); let x = b.stco->Some_0;
@@ -516,6 +522,7 @@ pub proof fn lemma_stbl_child_7(d: Seq<u8>, p: int, b: StblBox)
     lemma_child_placed(d, p, all, stbl_pre(b, 6), stco_bytes(x), stco_len(x), 0x7374636f);
     lemma_stco_roundtrip(s, c, x);
 }
+#[verifier::rlimit(200)]
 pub proof fn lemma_stbl_child_8(d: Seq<u8>, p: int, b: StblBox)
     requires 0 <= p, stbl_muxed(b), b.co64 is Some
     ensures ({ let s = wr(d, p, stbl_bytes(b)); let c = stbl_c(b, p, 8); let x = b.co64->Some_0;
@@ -529,63 +536,143 @@ pub proof fn lemma_stbl_child_8(d: Seq<u8>, p: int, b: StblBox)
     lemma_child_placed(d, p, all, stbl_pre(b, 7), co64_bytes(x), co64_len(x), 0x636f3634);
     lemma_co64_roundtrip(s, c, x);
 }
-/// on stream s, the eight (four optional) children of the stbl written at p are boxes at their positions
 pub open spec fn stbl_boxes(s: Seq<u8>, p: int, b: StblBox) -> bool {
-    &&& box_here(s, stbl_c(b, p, 1), stsd_len(b.stsd), 0x73747364) && box_here(s, stbl_c(b, p, 2), stts_len(b.stts), 0x73747473)
-    &&& (b.ctts matches Some(x) ==> box_here(s, stbl_c(b, p, 3), ctts_len(x), 0x63747473))
-    &&& (b.stss matches Some(x) ==> box_here(s, stbl_c(b, p, 4), stss_len(x), 0x73747373))
-    &&& box_here(s, stbl_c(b, p, 5), stsc_len(b.stsc), 0x73747363) && box_here(s, stbl_c(b, p, 6), stsz_len(b.stsz), 0x7374737a)
-    &&& (b.stco matches Some(x) ==> box_here(s, stbl_c(b, p, 7), stco_len(x), 0x7374636f))
-    &&& (b.co64 matches Some(x) ==> box_here(s, stbl_c(b, p, 8), co64_len(x), 0x636f3634))
+    box_here(s, stbl_c(b, p, 1), stsd_len(b.stsd), 0x73747364)
+    && box_here(s, stbl_c(b, p, 2), stts_len(b.stts), 0x73747473)
+    && (b.ctts matches Some(x) ==> box_here(s, stbl_c(b, p, 3), ctts_len(x), 0x63747473))
+    && (b.stss matches Some(x) ==> box_here(s, stbl_c(b, p, 4), stss_len(x), 0x73747373))
+    && box_here(s, stbl_c(b, p, 5), stsc_len(b.stsc), 0x73747363)
+    && box_here(s, stbl_c(b, p, 6), stsz_len(b.stsz), 0x7374737a)
+    && (b.stco matches Some(x) ==> box_here(s, stbl_c(b, p, 7), stco_len(x), 0x7374636f))
+    && (b.co64 matches Some(x) ==> box_here(s, stbl_c(b, p, 8), co64_len(x), 0x636f3634))
 }
-/// the child walk over such a stream finds exactly the children that were written
 pub proof fn lemma_stbl_walk(s: Seq<u8>, p: int, b: StblBox, ty: BoxType)
     requires 0 <= p, stbl_muxed(b), stbl_boxes(s, p, b)
-    ensures child_at(s, p + 8, stbl_len(b) as u64, ty) ==
-                   (if ty == BoxType::Co64Box && b.co64 is Some { Some(stbl_c(b, p, 8)) } else if ty == BoxType::StcoBox && b.stco is Some { Some(stbl_c(b, p, 7)) }
-                    else if ty == BoxType::StszBox { Some(stbl_c(b, p, 6)) } else if ty == BoxType::StscBox { Some(stbl_c(b, p, 5)) }
-                    else if ty == BoxType::StssBox && b.stss is Some { Some(stbl_c(b, p, 4)) } else if ty == BoxType::CttsBox && b.ctts is Some { Some(stbl_c(b, p, 3)) }
-                    else if ty == BoxType::SttsBox { Some(stbl_c(b, p, 2)) } else if ty == BoxType::StsdBox { Some(stbl_c(b, p, 1)) } else { None })
+    ensures child_at(s, p + 8, stbl_len(b) as u64, ty) == (if ty == BoxType::Co64Box && b.co64 is Some { Some(stbl_c(b, p, 8)) } else { (if ty == BoxType::StcoBox && b.stco is Some { Some(stbl_c(b, p, 7)) } else { (if ty == BoxType::StszBox { Some(stbl_c(b, p, 6)) } else { (if ty == BoxType::StscBox { Some(stbl_c(b, p, 5)) } else { (if ty == BoxType::StssBox && b.stss is Some { Some(stbl_c(b, p, 4)) } else { (if ty == BoxType::CttsBox && b.ctts is Some { Some(stbl_c(b, p, 3)) } else { (if ty == BoxType::SttsBox { Some(stbl_c(b, p, 2)) } else { (if ty == BoxType::StsdBox { Some(stbl_c(b, p, 1)) } else { None::<int> }) }) }) }) }) }) }) })
 {
     lemma_stbl_pre(b);
-    let c1 = stbl_c(b, p, 1); let c2 = stbl_c(b, p, 2); let c3 = stbl_c(b, p, 3); let c4 = stbl_c(b, p, 4);
-    let c5 = stbl_c(b, p, 5); let c6 = stbl_c(b, p, 6); let c7 = stbl_c(b, p, 7); let c8 = stbl_c(b, p, 8);
     let end = p + stbl_len(b);
-    lemma_box_here(s, c1, stsd_len(b.stsd), 0x73747364); lemma_box_here(s, c2, stts_len(b.stts), 0x73747473);
-    if b.ctts is Some { lemma_box_here(s, c3, ctts_len(b.ctts->Some_0), 0x63747473); }
-    if b.stss is Some { lemma_box_here(s, c4, stss_len(b.stss->Some_0), 0x73747373); }
-    lemma_box_here(s, c5, stsc_len(b.stsc), 0x73747363); lemma_box_here(s, c6, stsz_len(b.stsz), 0x7374737a);
-    if b.stco is Some { lemma_box_here(s, c7, stco_len(b.stco->Some_0), 0x7374636f); }
-    if b.co64 is Some { lemma_box_here(s, c8, co64_len(b.co64->Some_0), 0x636f3634); }
-    lemma_chain8(s, ty, end, c1, c2, c3, c4, c5, c6, c7, c8, end, true, true, b.ctts is Some, b.stss is Some, true, true, b.stco is Some, b.co64 is Some,
+    lemma_box_here(s, stbl_c(b, p, 1), stsd_len(b.stsd), 0x73747364);
+    lemma_box_here(s, stbl_c(b, p, 2), stts_len(b.stts), 0x73747473);
+    if b.ctts is Some { lemma_box_here(s, stbl_c(b, p, 3), ctts_len(b.ctts->Some_0), 0x63747473); }
+    if b.stss is Some { lemma_box_here(s, stbl_c(b, p, 4), stss_len(b.stss->Some_0), 0x73747373); }
+    lemma_box_here(s, stbl_c(b, p, 5), stsc_len(b.stsc), 0x73747363);
+    lemma_box_here(s, stbl_c(b, p, 6), stsz_len(b.stsz), 0x7374737a);
+    if b.stco is Some { lemma_box_here(s, stbl_c(b, p, 7), stco_len(b.stco->Some_0), 0x7374636f); }
+    if b.co64 is Some { lemma_box_here(s, stbl_c(b, p, 8), co64_len(b.co64->Some_0), 0x636f3634); }
+    lemma_chain8(s, ty, end, stbl_c(b, p, 1), stbl_c(b, p, 2), stbl_c(b, p, 3), stbl_c(b, p, 4), stbl_c(b, p, 5), stbl_c(b, p, 6), stbl_c(b, p, 7), stbl_c(b, p, 8), end, true, true, b.ctts is Some, b.stss is Some, true, true, b.stco is Some, b.co64 is Some,
         BoxType::StsdBox, BoxType::SttsBox, BoxType::CttsBox, BoxType::StssBox, BoxType::StscBox, BoxType::StszBox, BoxType::StcoBox, BoxType::Co64Box);
 }
 #[verifier::rlimit(200)]
+pub proof fn lemma_stbl_boxes(d: Seq<u8>, p: int, b: StblBox)
+    requires 0 <= p, stbl_muxed(b)
+    ensures stbl_boxes(wr(d, p, stbl_bytes(b)), p, b)
+{
+    lemma_stbl_child_1(d, p, b);
+    lemma_stbl_child_2(d, p, b);
+    if b.ctts is Some { lemma_stbl_child_3(d, p, b); }
+    if b.stss is Some { lemma_stbl_child_4(d, p, b); }
+    lemma_stbl_child_5(d, p, b);
+    lemma_stbl_child_6(d, p, b);
+    if b.stco is Some { lemma_stbl_child_7(d, p, b); }
+    if b.co64 is Some { lemma_stbl_child_8(d, p, b); }
+}
+#[verifier::rlimit(200)]
+pub proof fn lemma_stbl_rel_1(d: Seq<u8>, p: int, b: StblBox)
+    requires 0 <= p, stbl_muxed(b)
+    ensures ({ let s = wr(d, p, stbl_bytes(b)); let q = p + 8; let size = stbl_len(b) as u64; rel_stsd(s, Some(stsd_norm(b.stsd)), child_at(s, q, size, BoxType::StsdBox)) })
+{
+    let s = wr(d, p, stbl_bytes(b));
+    lemma_stbl_boxes(d, p, b);
+    lemma_stbl_walk(s, p, b, BoxType::StsdBox);
+    lemma_stbl_child_1(d, p, b); lemma_box_here(s, stbl_c(b, p, 1), stsd_len(b.stsd), 0x73747364);
+}
+#[verifier::rlimit(200)]
+pub proof fn lemma_stbl_rel_2(d: Seq<u8>, p: int, b: StblBox)
+    requires 0 <= p, stbl_muxed(b)
+    ensures ({ let s = wr(d, p, stbl_bytes(b)); let q = p + 8; let size = stbl_len(b) as u64; rel_stts(s, Some(b.stts), child_at(s, q, size, BoxType::SttsBox)) })
+{
+    let s = wr(d, p, stbl_bytes(b));
+    lemma_stbl_boxes(d, p, b);
+    lemma_stbl_walk(s, p, b, BoxType::SttsBox);
+    lemma_stbl_child_2(d, p, b); lemma_box_here(s, stbl_c(b, p, 2), stts_len(b.stts), 0x73747473);
+}
+#[verifier::rlimit(200)]
+pub proof fn lemma_stbl_rel_3(d: Seq<u8>, p: int, b: StblBox)
+    requires 0 <= p, stbl_muxed(b)
+    ensures ({ let s = wr(d, p, stbl_bytes(b)); let q = p + 8; let size = stbl_len(b) as u64; rel_ctts(s, b.ctts, child_at(s, q, size, BoxType::CttsBox)) })
+{
+    let s = wr(d, p, stbl_bytes(b));
+    lemma_stbl_boxes(d, p, b);
+    lemma_stbl_walk(s, p, b, BoxType::CttsBox);
+    if b.ctts is Some { lemma_stbl_child_3(d, p, b); lemma_box_here(s, stbl_c(b, p, 3), ctts_len(b.ctts->Some_0), 0x63747473); }
+}
+#[verifier::rlimit(200)]
+pub proof fn lemma_stbl_rel_4(d: Seq<u8>, p: int, b: StblBox)
+    requires 0 <= p, stbl_muxed(b)
+    ensures ({ let s = wr(d, p, stbl_bytes(b)); let q = p + 8; let size = stbl_len(b) as u64; rel_stss(s, b.stss, child_at(s, q, size, BoxType::StssBox)) })
+{
+    let s = wr(d, p, stbl_bytes(b));
+    lemma_stbl_boxes(d, p, b);
+    lemma_stbl_walk(s, p, b, BoxType::StssBox);
+    if b.stss is Some { lemma_stbl_child_4(d, p, b); lemma_box_here(s, stbl_c(b, p, 4), stss_len(b.stss->Some_0), 0x73747373); }
+}
+#[verifier::rlimit(200)]
+pub proof fn lemma_stbl_rel_5(d: Seq<u8>, p: int, b: StblBox)
+    requires 0 <= p, stbl_muxed(b)
+    ensures ({ let s = wr(d, p, stbl_bytes(b)); let q = p + 8; let size = stbl_len(b) as u64; rel_stsc(s, Some(b.stsc), child_at(s, q, size, BoxType::StscBox)) })
+{
+    let s = wr(d, p, stbl_bytes(b));
+    lemma_stbl_boxes(d, p, b);
+    lemma_stbl_walk(s, p, b, BoxType::StscBox);
+    lemma_stbl_child_5(d, p, b); lemma_box_here(s, stbl_c(b, p, 5), stsc_len(b.stsc), 0x73747363);
+}
+#[verifier::rlimit(200)]
+pub proof fn lemma_stbl_rel_6(d: Seq<u8>, p: int, b: StblBox)
+    requires 0 <= p, stbl_muxed(b)
+    ensures ({ let s = wr(d, p, stbl_bytes(b)); let q = p + 8; let size = stbl_len(b) as u64; rel_stsz(s, Some(b.stsz), child_at(s, q, size, BoxType::StszBox)) })
+{
+    let s = wr(d, p, stbl_bytes(b));
+    lemma_stbl_boxes(d, p, b);
+    lemma_stbl_walk(s, p, b, BoxType::StszBox);
+    lemma_stbl_child_6(d, p, b); lemma_box_here(s, stbl_c(b, p, 6), stsz_len(b.stsz), 0x7374737a);
+}
+#[verifier::rlimit(200)]
+pub proof fn lemma_stbl_rel_7(d: Seq<u8>, p: int, b: StblBox)
+    requires 0 <= p, stbl_muxed(b)
+    ensures ({ let s = wr(d, p, stbl_bytes(b)); let q = p + 8; let size = stbl_len(b) as u64; rel_stco(s, b.stco, child_at(s, q, size, BoxType::StcoBox)) })
+{
+    let s = wr(d, p, stbl_bytes(b));
+    lemma_stbl_boxes(d, p, b);
+    lemma_stbl_walk(s, p, b, BoxType::StcoBox);
+    if b.stco is Some { lemma_stbl_child_7(d, p, b); lemma_box_here(s, stbl_c(b, p, 7), stco_len(b.stco->Some_0), 0x7374636f); }
+}
+#[verifier::rlimit(200)]
+pub proof fn lemma_stbl_rel_8(d: Seq<u8>, p: int, b: StblBox)
+    requires 0 <= p, stbl_muxed(b)
+    ensures ({ let s = wr(d, p, stbl_bytes(b)); let q = p + 8; let size = stbl_len(b) as u64; rel_co64(s, b.co64, child_at(s, q, size, BoxType::Co64Box)) })
+{
+    let s = wr(d, p, stbl_bytes(b));
+    lemma_stbl_boxes(d, p, b);
+    lemma_stbl_walk(s, p, b, BoxType::Co64Box);
+    if b.co64 is Some { lemma_stbl_child_8(d, p, b); lemma_box_here(s, stbl_c(b, p, 8), co64_len(b.co64->Some_0), 0x636f3634); }
+}
 pub proof fn lemma_stbl_roundtrip(d: Seq<u8>, p: int, b: StblBox)
     requires 0 <= p, stbl_muxed(b)
     ensures stbl_at(wr(d, p, stbl_bytes(b)), p + 8, stbl_len(b) as u64, stbl_norm(b)),
             box_here(wr(d, p, stbl_bytes(b)), p, stbl_len(b), 0x7374626c)
 {
-    let s = wr(d, p, stbl_bytes(b));
     lemma_stbl_pre(b);
     lemma_stbl_starts(b);
     lemma_hdr_of_bytes(d, p, stbl_bytes(b), stbl_len(b), 0x7374626c);
-    lemma_stbl_child_1(d, p, b); lemma_stbl_child_2(d, p, b);
-    if b.ctts is Some { lemma_stbl_child_3(d, p, b); }
-    if b.stss is Some { lemma_stbl_child_4(d, p, b); }
-    lemma_stbl_child_5(d, p, b); lemma_stbl_child_6(d, p, b);
-    if b.stco is Some { lemma_stbl_child_7(d, p, b); }
-    if b.co64 is Some { lemma_stbl_child_8(d, p, b); }
-    assert(stbl_boxes(s, p, b));
-    lemma_stbl_walk(s, p, b, BoxType::StsdBox); lemma_stbl_walk(s, p, b, BoxType::SttsBox); lemma_stbl_walk(s, p, b, BoxType::CttsBox);
-    lemma_stbl_walk(s, p, b, BoxType::StssBox); lemma_stbl_walk(s, p, b, BoxType::StscBox); lemma_stbl_walk(s, p, b, BoxType::StszBox);
-    lemma_stbl_walk(s, p, b, BoxType::StcoBox); lemma_stbl_walk(s, p, b, BoxType::Co64Box);
-    lemma_box_here(s, stbl_c(b, p, 1), stsd_len(b.stsd), 0x73747364); lemma_box_here(s, stbl_c(b, p, 2), stts_len(b.stts), 0x73747473);
-    if b.ctts is Some { lemma_box_here(s, stbl_c(b, p, 3), ctts_len(b.ctts->Some_0), 0x63747473); }
-    if b.stss is Some { lemma_box_here(s, stbl_c(b, p, 4), stss_len(b.stss->Some_0), 0x73747373); }
-    lemma_box_here(s, stbl_c(b, p, 5), stsc_len(b.stsc), 0x73747363); lemma_box_here(s, stbl_c(b, p, 6), stsz_len(b.stsz), 0x7374737a);
-    if b.stco is Some { lemma_box_here(s, stbl_c(b, p, 7), stco_len(b.stco->Some_0), 0x7374636f); }
-    if b.co64 is Some { lemma_box_here(s, stbl_c(b, p, 8), co64_len(b.co64->Some_0), 0x636f3634); }
+    lemma_stbl_rel_1(d, p, b);
+    lemma_stbl_rel_2(d, p, b);
+    lemma_stbl_rel_3(d, p, b);
+    lemma_stbl_rel_4(d, p, b);
+    lemma_stbl_rel_5(d, p, b);
+    lemma_stbl_rel_6(d, p, b);
+    lemma_stbl_rel_7(d, p, b);
+    lemma_stbl_rel_8(d, p, b);
 }
 
 // ---- minf
@@ -667,29 +754,67 @@ pub proof fn lemma_minf_walk(s: Seq<u8>, p: int, b: MinfBox, ty: BoxType)
     lemma_chain8(s, ty, end, minf_c(b, p, 1), minf_c(b, p, 2), minf_c(b, p, 3), minf_c(b, p, 4), end, end, end, end, end, b.vmhd is Some, b.smhd is Some, true, true, false, false, false, false,
         BoxType::VmhdBox, BoxType::SmhdBox, BoxType::DinfBox, BoxType::StblBox, BoxType::FreeBox, BoxType::FreeBox, BoxType::FreeBox, BoxType::FreeBox);
 }
-#[verifier::rlimit(300)]
+#[verifier::rlimit(200)]
+pub proof fn lemma_minf_boxes(d: Seq<u8>, p: int, b: MinfBox)
+    requires 0 <= p, minf_muxed(b)
+    ensures minf_boxes(wr(d, p, minf_bytes(b)), p, b)
+{
+    if b.vmhd is Some { lemma_minf_child_1(d, p, b); }
+    if b.smhd is Some { lemma_minf_child_2(d, p, b); }
+    lemma_minf_child_3(d, p, b);
+    lemma_minf_child_4(d, p, b);
+}
+#[verifier::rlimit(200)]
+pub proof fn lemma_minf_rel_1(d: Seq<u8>, p: int, b: MinfBox)
+    requires 0 <= p, minf_muxed(b)
+    ensures ({ let s = wr(d, p, minf_bytes(b)); let q = p + 8; let size = minf_len(b) as u64; rel_vmhd(s, b.vmhd, child_at(s, q, size, BoxType::VmhdBox)) })
+{
+    let s = wr(d, p, minf_bytes(b));
+    lemma_minf_boxes(d, p, b);
+    lemma_minf_walk(s, p, b, BoxType::VmhdBox);
+    if b.vmhd is Some { lemma_minf_child_1(d, p, b); lemma_box_here(s, minf_c(b, p, 1), vmhd_len(b.vmhd->Some_0), 0x766d6864); }
+}
+#[verifier::rlimit(200)]
+pub proof fn lemma_minf_rel_2(d: Seq<u8>, p: int, b: MinfBox)
+    requires 0 <= p, minf_muxed(b)
+    ensures ({ let s = wr(d, p, minf_bytes(b)); let q = p + 8; let size = minf_len(b) as u64; rel_smhd(s, b.smhd, child_at(s, q, size, BoxType::SmhdBox)) })
+{
+    let s = wr(d, p, minf_bytes(b));
+    lemma_minf_boxes(d, p, b);
+    lemma_minf_walk(s, p, b, BoxType::SmhdBox);
+    if b.smhd is Some { lemma_minf_child_2(d, p, b); lemma_box_here(s, minf_c(b, p, 2), smhd_len(b.smhd->Some_0), 0x736d6864); }
+}
+#[verifier::rlimit(200)]
+pub proof fn lemma_minf_rel_3(d: Seq<u8>, p: int, b: MinfBox)
+    requires 0 <= p, minf_muxed(b)
+    ensures ({ let s = wr(d, p, minf_bytes(b)); let q = p + 8; let size = minf_len(b) as u64; child_at(s, q, size, BoxType::DinfBox) is Some })
+{
+    let s = wr(d, p, minf_bytes(b));
+    lemma_minf_boxes(d, p, b);
+    lemma_minf_walk(s, p, b, BoxType::DinfBox);
+}
+#[verifier::rlimit(200)]
+pub proof fn lemma_minf_rel_4(d: Seq<u8>, p: int, b: MinfBox)
+    requires 0 <= p, minf_muxed(b)
+    ensures ({ let s = wr(d, p, minf_bytes(b)); let q = p + 8; let size = minf_len(b) as u64; rel_stbl(s, Some(stbl_norm(b.stbl)), child_at(s, q, size, BoxType::StblBox)) })
+{
+    let s = wr(d, p, minf_bytes(b));
+    lemma_minf_boxes(d, p, b);
+    lemma_minf_walk(s, p, b, BoxType::StblBox);
+    lemma_minf_child_4(d, p, b); lemma_box_here(s, minf_c(b, p, 4), stbl_len(b.stbl), 0x7374626c);
+}
 pub proof fn lemma_minf_roundtrip(d: Seq<u8>, p: int, b: MinfBox)
     requires 0 <= p, minf_muxed(b)
     ensures minf_at(wr(d, p, minf_bytes(b)), p + 8, minf_len(b) as u64, minf_norm(b)),
             box_here(wr(d, p, minf_bytes(b)), p, minf_len(b), 0x6d696e66)
 {
-    let s = wr(d, p, minf_bytes(b));
     lemma_minf_pre(b);
     lemma_minf_starts(b);
     lemma_hdr_of_bytes(d, p, minf_bytes(b), minf_len(b), 0x6d696e66);
-    if b.vmhd is Some { lemma_minf_child_1(d, p, b); }
-    if b.smhd is Some { lemma_minf_child_2(d, p, b); }
-    lemma_minf_child_3(d, p, b);
-    lemma_minf_child_4(d, p, b);
-    assert(minf_boxes(s, p, b));
-    lemma_minf_walk(s, p, b, BoxType::VmhdBox);
-    lemma_minf_walk(s, p, b, BoxType::SmhdBox);
-    lemma_minf_walk(s, p, b, BoxType::DinfBox);
-    lemma_minf_walk(s, p, b, BoxType::StblBox);
-    if b.vmhd is Some { lemma_box_here(s, minf_c(b, p, 1), vmhd_len(b.vmhd->Some_0), 0x766d6864); }
-    if b.smhd is Some { lemma_box_here(s, minf_c(b, p, 2), smhd_len(b.smhd->Some_0), 0x736d6864); }
-    lemma_box_here(s, minf_c(b, p, 3), dinf_len(b.dinf), 0x64696e66);
-    lemma_box_here(s, minf_c(b, p, 4), stbl_len(b.stbl), 0x7374626c);
+    lemma_minf_rel_1(d, p, b);
+    lemma_minf_rel_2(d, p, b);
+    lemma_minf_rel_3(d, p, b);
+    lemma_minf_rel_4(d, p, b);
 }
 
 // ---- mdia
@@ -755,26 +880,56 @@ pub proof fn lemma_mdia_walk(s: Seq<u8>, p: int, b: MdiaBox, ty: BoxType)
     lemma_chain8(s, ty, end, mdia_c(b, p, 1), mdia_c(b, p, 2), mdia_c(b, p, 3), end, end, end, end, end, end, true, true, true, false, false, false, false, false,
         BoxType::MdhdBox, BoxType::HdlrBox, BoxType::MinfBox, BoxType::FreeBox, BoxType::FreeBox, BoxType::FreeBox, BoxType::FreeBox, BoxType::FreeBox);
 }
-#[verifier::rlimit(300)]
+#[verifier::rlimit(200)]
+pub proof fn lemma_mdia_boxes(d: Seq<u8>, p: int, b: MdiaBox)
+    requires 0 <= p, mdia_muxed(b)
+    ensures mdia_boxes(wr(d, p, mdia_bytes(b)), p, b)
+{
+    lemma_mdia_child_1(d, p, b);
+    lemma_mdia_child_2(d, p, b);
+    lemma_mdia_child_3(d, p, b);
+}
+#[verifier::rlimit(200)]
+pub proof fn lemma_mdia_rel_1(d: Seq<u8>, p: int, b: MdiaBox)
+    requires 0 <= p, mdia_muxed(b)
+    ensures ({ let s = wr(d, p, mdia_bytes(b)); let q = p + 8; let size = mdia_len(b) as u64; rel_mdhd(s, Some(b.mdhd), child_at(s, q, size, BoxType::MdhdBox)) })
+{
+    let s = wr(d, p, mdia_bytes(b));
+    lemma_mdia_boxes(d, p, b);
+    lemma_mdia_walk(s, p, b, BoxType::MdhdBox);
+    lemma_mdia_child_1(d, p, b); lemma_box_here(s, mdia_c(b, p, 1), mdhd_len(b.mdhd), 0x6d646864);
+}
+#[verifier::rlimit(200)]
+pub proof fn lemma_mdia_rel_2(d: Seq<u8>, p: int, b: MdiaBox)
+    requires 0 <= p, mdia_muxed(b)
+    ensures ({ let s = wr(d, p, mdia_bytes(b)); let q = p + 8; let size = mdia_len(b) as u64; rel_hdlr(s, Some(b.hdlr), child_at(s, q, size, BoxType::HdlrBox)) })
+{
+    let s = wr(d, p, mdia_bytes(b));
+    lemma_mdia_boxes(d, p, b);
+    lemma_mdia_walk(s, p, b, BoxType::HdlrBox);
+    lemma_mdia_child_2(d, p, b); lemma_box_here(s, mdia_c(b, p, 2), hdlr_len(b.hdlr), 0x68646c72);
+}
+#[verifier::rlimit(200)]
+pub proof fn lemma_mdia_rel_3(d: Seq<u8>, p: int, b: MdiaBox)
+    requires 0 <= p, mdia_muxed(b)
+    ensures ({ let s = wr(d, p, mdia_bytes(b)); let q = p + 8; let size = mdia_len(b) as u64; rel_minf(s, Some(minf_norm(b.minf)), child_at(s, q, size, BoxType::MinfBox)) })
+{
+    let s = wr(d, p, mdia_bytes(b));
+    lemma_mdia_boxes(d, p, b);
+    lemma_mdia_walk(s, p, b, BoxType::MinfBox);
+    lemma_mdia_child_3(d, p, b); lemma_box_here(s, mdia_c(b, p, 3), minf_len(b.minf), 0x6d696e66);
+}
 pub proof fn lemma_mdia_roundtrip(d: Seq<u8>, p: int, b: MdiaBox)
     requires 0 <= p, mdia_muxed(b)
     ensures mdia_at(wr(d, p, mdia_bytes(b)), p + 8, mdia_len(b) as u64, mdia_norm(b)),
             box_here(wr(d, p, mdia_bytes(b)), p, mdia_len(b), 0x6d646961)
 {
-    let s = wr(d, p, mdia_bytes(b));
     lemma_mdia_pre(b);
     lemma_mdia_starts(b);
     lemma_hdr_of_bytes(d, p, mdia_bytes(b), mdia_len(b), 0x6d646961);
-    lemma_mdia_child_1(d, p, b);
-    lemma_mdia_child_2(d, p, b);
-    lemma_mdia_child_3(d, p, b);
-    assert(mdia_boxes(s, p, b));
-    lemma_mdia_walk(s, p, b, BoxType::MdhdBox);
-    lemma_mdia_walk(s, p, b, BoxType::HdlrBox);
-    lemma_mdia_walk(s, p, b, BoxType::MinfBox);
-    lemma_box_here(s, mdia_c(b, p, 1), mdhd_len(b.mdhd), 0x6d646864);
-    lemma_box_here(s, mdia_c(b, p, 2), hdlr_len(b.hdlr), 0x68646c72);
-    lemma_box_here(s, mdia_c(b, p, 3), minf_len(b.minf), 0x6d696e66);
+    lemma_mdia_rel_1(d, p, b);
+    lemma_mdia_rel_2(d, p, b);
+    lemma_mdia_rel_3(d, p, b);
 }
 
 // ---- trak
@@ -824,23 +979,62 @@ pub proof fn lemma_trak_walk(s: Seq<u8>, p: int, b: TrakBox, ty: BoxType)
     lemma_chain8_m(s, ty, end, trak_c(b, p, 1), trak_c(b, p, 4), end, end, end, end, end, end, end, true, true, false, false, false, false, false, false,
         BoxType::TkhdBox, BoxType::MdiaBox, BoxType::FreeBox, BoxType::FreeBox, BoxType::FreeBox, BoxType::FreeBox, BoxType::FreeBox, BoxType::FreeBox);
 }
-#[verifier::rlimit(300)]
+#[verifier::rlimit(200)]
+pub proof fn lemma_trak_boxes(d: Seq<u8>, p: int, b: TrakBox)
+    requires 0 <= p, trak_muxed(b)
+    ensures trak_boxes(wr(d, p, trak_bytes(b)), p, b)
+{
+    lemma_trak_child_1(d, p, b);
+    lemma_trak_child_4(d, p, b);
+}
+#[verifier::rlimit(200)]
+pub proof fn lemma_trak_rel_1(d: Seq<u8>, p: int, b: TrakBox)
+    requires 0 <= p, trak_muxed(b)
+    ensures ({ let s = wr(d, p, trak_bytes(b)); let q = p + 8; let size = trak_len(b) as u64; rel_tkhd(s, Some(b.tkhd), child_at_m(s, q, size, BoxType::TkhdBox)) })
+{
+    let s = wr(d, p, trak_bytes(b));
+    lemma_trak_boxes(d, p, b);
+    lemma_trak_walk(s, p, b, BoxType::TkhdBox);
+    lemma_trak_child_1(d, p, b); lemma_box_here(s, trak_c(b, p, 1), tkhd_len(b.tkhd), 0x746b6864);
+}
+#[verifier::rlimit(200)]
+pub proof fn lemma_trak_rel_2(d: Seq<u8>, p: int, b: TrakBox)
+    requires 0 <= p, trak_muxed(b)
+    ensures ({ let s = wr(d, p, trak_bytes(b)); let q = p + 8; let size = trak_len(b) as u64; child_at_m(s, q, size, BoxType::EdtsBox) is None })
+{
+    let s = wr(d, p, trak_bytes(b));
+    lemma_trak_boxes(d, p, b);
+    lemma_trak_walk(s, p, b, BoxType::EdtsBox);
+}
+#[verifier::rlimit(200)]
+pub proof fn lemma_trak_rel_3(d: Seq<u8>, p: int, b: TrakBox)
+    requires 0 <= p, trak_muxed(b)
+    ensures ({ let s = wr(d, p, trak_bytes(b)); let q = p + 8; let size = trak_len(b) as u64; child_at_m(s, q, size, BoxType::MetaBox) is None })
+{
+    let s = wr(d, p, trak_bytes(b));
+    lemma_trak_boxes(d, p, b);
+    lemma_trak_walk(s, p, b, BoxType::MetaBox);
+}
+#[verifier::rlimit(200)]
+pub proof fn lemma_trak_rel_4(d: Seq<u8>, p: int, b: TrakBox)
+    requires 0 <= p, trak_muxed(b)
+    ensures ({ let s = wr(d, p, trak_bytes(b)); let q = p + 8; let size = trak_len(b) as u64; rel_mdia(s, Some(mdia_norm(b.mdia)), child_at_m(s, q, size, BoxType::MdiaBox)) })
+{
+    let s = wr(d, p, trak_bytes(b));
+    lemma_trak_boxes(d, p, b);
+    lemma_trak_walk(s, p, b, BoxType::MdiaBox);
+    lemma_trak_child_4(d, p, b); lemma_box_here(s, trak_c(b, p, 4), mdia_len(b.mdia), 0x6d646961);
+}
 pub proof fn lemma_trak_roundtrip(d: Seq<u8>, p: int, b: TrakBox)
     requires 0 <= p, trak_muxed(b)
     ensures trak_at(wr(d, p, trak_bytes(b)), p + 8, trak_len(b) as u64, trak_norm(b)),
             box_here(wr(d, p, trak_bytes(b)), p, trak_len(b), 0x7472616b)
 {
-    let s = wr(d, p, trak_bytes(b));
     lemma_trak_pre(b);
     lemma_trak_starts(b);
     lemma_hdr_of_bytes(d, p, trak_bytes(b), trak_len(b), 0x7472616b);
-    lemma_trak_child_1(d, p, b);
-    lemma_trak_child_4(d, p, b);
-    assert(trak_boxes(s, p, b));
-    lemma_trak_walk(s, p, b, BoxType::TkhdBox);
-    lemma_trak_walk(s, p, b, BoxType::EdtsBox);
-    lemma_trak_walk(s, p, b, BoxType::MetaBox);
-    lemma_trak_walk(s, p, b, BoxType::MdiaBox);
-    lemma_box_here(s, trak_c(b, p, 1), tkhd_len(b.tkhd), 0x746b6864);
-    lemma_box_here(s, trak_c(b, p, 4), mdia_len(b.mdia), 0x6d646961);
+    lemma_trak_rel_1(d, p, b);
+    lemma_trak_rel_2(d, p, b);
+    lemma_trak_rel_3(d, p, b);
+    lemma_trak_rel_4(d, p, b);
 }
